@@ -924,6 +924,7 @@ func main() {
 	isoCases(s, r.Fork(), thorough)
 	structCases(s, r.Fork(), thorough)
 	isoCoqCases(s, r.Fork(), thorough)
+	jsonCases(s, r.Fork(), thorough)
 	if err := s.Finish(); err != nil {
 		fmt.Fprintln(os.Stderr, err)
 		os.Exit(2)
